@@ -336,6 +336,29 @@ fn gen_onnx(rng: &mut Rng, quick: bool, cands: &[Vec<i64>]) -> Vec<FCase> {
             v.push(FCase { fmt: "onnx", gen_name: format!("{dname}/raw"), mutation: "raw length not a multiple of the element size".into(), bytes: onnx_model(*dtype, &[2, 3], &Src::Raw(raw), false), ext: None });
         }
     }
+    // probes: read one element far outside the (empty) backing buffer of a
+    // constant whose dims product wrapped to 0
+    for (label, dims) in [("product 2^64 wraps to 0", vec![P32, P32]), ("true", vec![2, 3])] {
+        let stored = if dims[0] == 2 { 6 } else { 0 };
+        let t = onnx_tensor(onnx::FLOAT, &dims, &Src::Raw(vec![0u8; stored * 4]), "w");
+        let idx_raw: Vec<u8> = [1i64, 1].iter().flat_map(|x| x.to_le_bytes()).collect();
+        let idx = onnx_tensor(onnx::INT64, &[1, 2], &Src::Raw(idx_raw), "idx");
+        let mut g = Vec::new();
+        f_bytes(&mut g, 1, &onnx::Node::new("GatherND", &["w", "idx"], &["y"]).encode());
+        f_str(&mut g, 2, "g");
+        f_bytes(&mut g, 5, &t);
+        f_bytes(&mut g, 5, &idx);
+        f_bytes(&mut g, 12, &onnx::ValueInfo::new("y", onnx::FLOAT, None).encode());
+        let mut m = Vec::new();
+        f_varint(&mut m, 1, 9);
+        f_str(&mut m, 2, "verif");
+        f_bytes(&mut m, 7, &g);
+        let mut ops = Vec::new();
+        f_str(&mut ops, 1, "");
+        f_varint(&mut ops, 2, 21);
+        f_bytes(&mut m, 8, &ops);
+        v.push(FCase { fmt: "onnx", gen_name: "f32/raw/gathernd-probe".into(), mutation: label.into(), bytes: m, ext: None });
+    }
     // unsupported / missing data types, external data that is missing
     for dt in [0, 8, 12, 16, 99] {
         v.push(FCase { fmt: "onnx", gen_name: "dtype".into(), mutation: format!("data type {dt}"), bytes: onnx_model(dt, &[2], &Src::Raw(vec![0; 8]), false), ext: None });
@@ -426,6 +449,9 @@ fn gen_rten(rng: &mut Rng, quick: bool, cands: &[Vec<i64>]) -> Vec<FCase> {
             while e >= 16 {
                 s.push(p16);
                 e -= 16;
+            }
+            if e > 0 {
+                s.push(1u32 << e);
             }
         }
         shapes.push(("TLC candidate: product wraps to 0".into(), s, 0));
@@ -639,11 +665,12 @@ const AS_LIMIT: u64 = 8 << 30;
 
 fn parse_cands(path: &str) -> Vec<Vec<i64>> {
     // power-of-two shapes accepted with an empty buffer at word size 2^4 (or 2^6):
-    // 2^a scales to 2^(a * 64 / log2 W)
+    // 2^a scales to 2^(a * ceil(64 / log2 W))
     let mut out: Vec<Vec<i64>> = Vec::new();
     for c in read_json_lines(path) {
         let w = c["w"].as_u64().unwrap_or(16);
-        let scale = 64 / w.trailing_zeros().max(1);
+        let bits = w.trailing_zeros().max(1);
+        let scale = (64 + bits - 1) / bits; // total exponent >= log2 W  =>  scaled total >= 64
         if c["kind"] != "fromdata" || c["dlen"].as_u64() != Some(0) {
             continue;
         }
@@ -678,6 +705,7 @@ fn decoder_spins(bytes: &[u8]) -> bool {
 
 /// `vh-load fuzz --out trace.ndjson [--cands file] [--only-case json]`
 pub fn main_fuzz() {
+    let _scratch = crate::child::scratch_tmpdir();
     let out = arg_or("--out", "fuzz.ndjson");
     let quick = std::env::var("VERIF_TIER").map(|t| t != "thorough").unwrap_or(true);
     let threads = arg_usize("--threads", 8);
@@ -705,7 +733,12 @@ pub fn main_fuzz() {
             api,
         ));
     } else {
-        let cands_used: Vec<Vec<i64>> = if quick { cands.iter().take(12).cloned().collect() } else { cands.clone() };
+        // a deterministic spread of the TLC candidates (every k-th of the sorted list)
+        let mut sorted = cands.clone();
+        sorted.sort();
+        let want = if quick { 12 } else { 150 };
+        let stride = sorted.len().div_ceil(want).max(1);
+        let cands_used: Vec<Vec<i64>> = sorted.into_iter().step_by(stride).collect();
         let mut cases = gen_onnx(&mut rng, quick, &cands_used);
         cases.extend(gen_rten(&mut rng, quick, &cands_used));
         for c in cases {
